@@ -1178,6 +1178,16 @@ zip_read_local_file_header(struct archive_read *a, struct archive_entry *entry,
 			int status = ARCHIVE_FATAL;
 			const void *uncompressed_buffer = NULL;
 
+			/* The decompressor below is run once, on the input
+			 * that is at hand: have all of the link body there. */
+			if (__archive_read_ahead(a, linkname_length, NULL)
+			    == NULL) {
+				archive_set_error(&a->archive,
+				    ARCHIVE_ERRNO_MISC,
+				    "Truncated Zip file");
+				return ARCHIVE_FATAL;
+			}
+
 			switch (zip->entry->compression)
 			{
 #if HAVE_ZLIB_H
